@@ -22,5 +22,8 @@ func init() {
 		Variant{Property: "C11", Name: "literal-outside-common", File: fConnlist, Func: "GetConnectionSetFromP2PConnection", Old: "AllowAll: c.AllProtocolsAndPorts(), ", New: "", Rule: "C11-c-encap"},
 		Variant{Property: "C11", Name: "benign-union-reordered", File: fConnSet, Func: "ConnectionSet.Union", Old: "\tconn.checkIfAllConnections()\n", New: "\tconn.checkIfAllConnections()\n\tconn.checkIfAllConnections()\n", Benign: true},
 		Variant{Property: "C11", Name: "benign-copy-through-local", File: fConnSet, Func: "ConnectionSet.Copy", Old: "res.AllowedProtocols[protocol] = portSet.Copy()", New: "c := portSet.Copy()\n\t\tres.AllowedProtocols[protocol] = c", Benign: true},
+		Variant{Property: "C11", Name: "full-range-by-bounds", File: fPortSet, Func: "PortSet.ContainedIn", Old: "otherHasAllPorts := other.Ports.Equal(interval.New(minPort, maxPort).ToSet())", New: "otherHasAllPorts := !other.Ports.IsEmpty() && other.Ports.Min() == minPort && other.Ports.Max() == maxPort", Rule: "C11-e", Why: "seeded C11-b shape"},
+		Variant{Property: "C11", Name: "full-range-excuse-on-receiver", File: fPortSet, Func: "PortSet.ContainedIn", Old: "otherHasAllPorts := other.Ports.Equal(interval.New(minPort, maxPort).ToSet())", New: "otherHasAllPorts := p.Ports.Equal(interval.New(minPort, maxPort).ToSet())", Rule: "C11-e"},
+		Variant{Property: "C11", Name: "full-range-via-isall-ports", File: fPortSet, Func: "PortSet.ContainedIn", Old: "otherHasAllPorts := other.Ports.Equal(interval.New(minPort, maxPort).ToSet())", New: "otherHasAllPorts := other.Ports.Equal(MakePortSet(true).Ports)", Benign: true, Why: "the same equality, spelled through the constructor"},
 	)
 }
